@@ -50,7 +50,7 @@ Definition req_ok_cues (arg : sx) : sx :=
   match arg with
   | SL [k; cs; gs; obs] =>
       match sx_kind k, sx_caps cs, sx_listof sx_natz gs, sx_listof sx_tokpair obs with
-      | Some k, Some cs, Some gs, Some obs => of_bool (ok_cues k cs gs obs)
+      | Some k, Some cs, Some gs, Some obs => of_bool (ok_cues k cs obs)
       | _, _, _, _ => bad
       end
   | _ => bad
